@@ -72,6 +72,7 @@ func RunCheck(t *testing.T, spec *CheckSpec) {
 	var wg sync.WaitGroup
 	results := make([]shardResult, len(scs))
 	errs := make([]string, len(scs))
+	hangs := make([]string, len(scs))
 	jobs := make(chan int, len(scs))
 	for k := range scs {
 		jobs <- k
@@ -88,7 +89,43 @@ func RunCheck(t *testing.T, spec *CheckSpec) {
 				var eb strings.Builder
 				cmd.Stderr = &eb
 				cmd.Stdout = &eb
-				if err := cmd.Run(); err != nil {
+				hb := out + ".hb"
+				cmd.Env = append(cmd.Env, "VERIF_HB="+hb)
+				os.WriteFile(hb, []byte("0"), 0o644)
+				if err := cmd.Start(); err != nil {
+					errs[i] = fmt.Sprintf("scenario %d (%s): %v", i, scs[i].Name, err)
+					continue
+				}
+				// watchdog: one execution takes milliseconds; a worker that does not
+				// start another execution for hangLimit is stuck inside the code under
+				// test, outside every scheduling point
+				exited := make(chan error, 1)
+				go func() { exited <- cmd.Wait() }()
+				var err error
+				hung := false
+				lastBeat, lastChange := "", time.Now()
+			wait:
+				for {
+					select {
+					case err = <-exited:
+						break wait
+					case <-time.After(2 * time.Second):
+						b, _ := os.ReadFile(hb)
+						if string(b) != lastBeat {
+							lastBeat, lastChange = string(b), time.Now()
+						} else if time.Since(lastChange) > hangLimit() {
+							hung = true
+							cmd.Process.Kill()
+							err = <-exited
+							break wait
+						}
+					}
+				}
+				if hung {
+					hangs[i] = fmt.Sprintf("scenario %s: the worker started execution #%s and did not finish it within %v: the code under test spins or blocks outside every scheduling point (no VM instruction boundary is reached), so it can be neither scheduled nor cancelled\n%s", scs[i].Name, lastBeat, hangLimit(), tailStr(eb.String(), 2000))
+					continue
+				}
+				if err != nil {
 					errs[i] = fmt.Sprintf("scenario %d (%s): %v\n%s", i, scs[i].Name, err, tailStr(eb.String(), 4000))
 					continue
 				}
@@ -117,6 +154,11 @@ func RunCheck(t *testing.T, spec *CheckSpec) {
 		}
 	}
 	var failures []kit.Failure
+	for k, h := range hangs {
+		if h != "" {
+			failures = append(failures, kit.Failure{Space: scs[k].Name, Index: uint64(k), Key: "execution-hangs-outside-scheduling-points|scenario=" + scs[k].Name, Detail: h, Witness: map[string]any{"scenario": scs[k].Name}})
+		}
+	}
 	execs, trans, states, caps, selForks := 0, 0, 0, 0, 0
 	distinctObs := 0
 	exhaustive := true
@@ -182,6 +224,17 @@ func RunCheck(t *testing.T, spec *CheckSpec) {
 	}
 	code := kit.Finish(spec.ID, spec.Level, tier, cov, spec.Assumptions, failures, harness, start)
 	os.Exit(code)
+}
+
+// hangLimit is how long a worker may stay inside one execution (VERIF_HANG_SECONDS, default 180).
+func hangLimit() time.Duration {
+	if v := os.Getenv("VERIF_HANG_SECONDS"); v != "" {
+		var n int
+		if _, err := fmt.Sscanf(v, "%d", &n); err == nil && n > 0 {
+			return time.Duration(n) * time.Second
+		}
+	}
+	return 180 * time.Second
 }
 
 func tailStr(s string, n int) string {
